@@ -123,3 +123,47 @@ def run_histories(cases: list[dict]) -> list[dict]:
             r["tb"] = traceback.format_exc()[-800:]
         out.append(r)
     return out
+
+
+COMPILED_TEXTS = [
+    # several ops at one source position inside a macro (inline context = context op + operation), expanded more than once
+    "macro who($who) {\n    a(1);\n    Turn<actor $who>(1);\n    b();\n}\ndef 0 {\n    ~who(2);\n    if ($X == 1) {\n        ~who(3);\n    }\n    c();\n    ~who(4);\n    end;\n}\n",
+    "macro inner($v) {\n    Wait<object $v>(2);\n    if (debug) {\n        return;\n    }\n    x<performer $v>($v);\n}\nmacro outer($a) {\n    y($a);\n    ~inner($a);\n    z<actor 1>(Position<'m', 1, 2.5>);\n}\ndef 0 {\n    ~outer(5);\n    switch ($X) {\n        case 1:\n            ~outer(6);\n            break;\n        default:\n            ~inner(7);\n    }\n    end;\n}\n",
+]
+
+
+def run_compiled(cases: list[dict]) -> list[dict]:
+    """rewrite_offsets on the source map OBJECT the compiler returns (not on one rebuilt from its fields: entries of such a map may
+    share objects).  case: {"text"| "file", "fmode"}; returns the map's fields before, the mapping, and the fields after."""
+    from explorerscript.ssb_converting.ssb_compiler import ExplorerScriptSsbCompiler
+    out = []
+    for c in cases:
+        r: dict = {}
+        try:
+            comp = ExplorerScriptSsbCompiler("$PERF", [])
+            if c.get("file"):
+                comp.compile(open(c["file"], encoding="utf-8").read(), c["file"])
+            else:
+                comp.compile(c["text"], "/nonexistent/c14/main.exps")
+            m = comp.source_map
+            before = sm_to_wire(m)
+            keys = sorted({k for k, _ in before["map"]} | {k for k, _ in before["macros"]})
+            kept = [k for i, k in enumerate(keys) if not (c.get("drop") and i % c["drop"] == c["drop"] - 1)]
+            mode = c.get("fmode", "dense")
+            if mode == "dense":
+                f = {k: i for i, k in enumerate(kept)}
+            elif mode == "dense1":
+                f = {k: i + 1 for i, k in enumerate(kept)}
+            elif mode == "double":
+                f = {k: 2 * k for k in kept}
+            else:
+                f = {k: k + 1 for k in kept}
+            r["before"], r["f"] = before, [[k, v] for k, v in f.items()]
+            m.rewrite_offsets(dict(f))
+            r["after"] = sm_to_wire(m)
+        except BaseException as e:  # noqa
+            import traceback
+            r["exc"] = type(e).__name__ + ": " + str(e)[:200]
+            r["tb"] = traceback.format_exc()[-800:]
+        out.append(r)
+    return out
